@@ -105,7 +105,7 @@ EXTRA = {
     "C12": "Close from the running work with buffered items and blocked senders; closed while busy; timed-out Asks as messages. IsClosed polled during traffic; first submissions to thousands of fresh mailboxes racing each other; one sender interleaving AskChannel and Send; Close from outside with a backlog. Spawn trees with a closed root / middle node: the actors below stay open and process later messages.",
     "C13": "Caller supplied reply channels; near-timeout then long-timeout histories (old timer-channel semantics selected); non-positive timeouts; requests queued behind a busy actor. Ask objects older than their timeout; scatter/gather of several AskChannel calls; late hand-over to a busy unbuffered actor. One ask object sent again with AskChannel (polling client), one-shot asks in between. Replies produced 1.3 s / 2.6 s after the timeout.",
     "C14": "Target held back until its request channel is full; YieldFromIO whose effect uses YieldFrom; back-to-back Start calls. Callers preceding Start(); volume runs of 150000+ requests per caller against an echoing target. YieldFromIO over eight owner-configured IO shapes (ObserveOn / SubscribeOn on one or two handlers).",
-    "C15": "Caller completing inside its own YieldFrom; job queue closed under an open pool; pool churn (thousands of short-lived pools closed under load). After-close probes at every fill level. Offer / Put producers on a completely full queue while Close arrives.",
+    "C15": "Caller completing inside its own YieldFrom; job queue closed under an open pool; pool churn (thousands of short-lived pools closed under load). After-close probes at every fill level. Offer / Put producers on a completely full queue while Close arrives. Queue churn (short-lived queues, one Close each); Close while jobs are running for worker batch sizes 1..4.",
     "C16": "Long lists; nested PMap; one option value reused across calls. Interface result types with nil results; zero-size result types; caller slices with spare capacity. A callback that ends its goroutine with runtime.Goexit: the call still returns, at-most-once, no invented result.",
     "C17": "Connection-level faults on the first round trip only; response bodies up to 4 MiB on loopback; slice / map / value body types. Path parameters with Error()/String() methods; literal braces in templates; a serializer whose reader fails half way.",
     "C18": "Two instances on one client; the held client with a replaced Transport; long histories with redirects and many refused requests. EOF-class transport faults and timeout-kind interceptor errors in long histories; 2..16 goroutines through one instance. A SimpleHTTP installed as http.DefaultTransport combined with SetHTTPClient of default clients.",
